@@ -77,27 +77,22 @@ Theorem C11_extends_keeps_every_leaf :
 Proof. exact extends_old_leaves. Qed.
 
 (* ===== (4) set_correlation ===== *)
-(* the coefficient test of lib.set_correlation_real: the faithful statement ... *)
+(* the coefficient test of lib.set_correlation_real: accepted <-> both elementary, both declared
+   independent=False, r a number in [-1,1] (only 1 between a number and itself).  NaN is rejected
+   (`not abs(r) <= 1.0`; finding C11-1, fixed: this replaces C11_set_correlation_nan_refuted) *)
 Theorem C11_set_correlation_real_decision :
   forall (r : ext) e1 e2 i1 i2 same,
-    g_set_correlation_real ENum r e1 e2 i1 i2 same = Ok tt <->
-    sc_flags_ok e1 e2 i1 i2 /\ (r_limits r same \/ (r = ENaN /\ same = false)).
+    g_set_correlation_real ENum r e1 e2 i1 i2 same = Ok tt <-> sc_flags_ok e1 e2 i1 i2 /\ r_limits r same.
 Proof. exact set_correlation_real_accept_iff. Qed.
 
-(* ... the full-strength one ("only coefficients in [-1,1]") is false: NaN is accepted ... *)
-Theorem C11_set_correlation_nan_refuted :
-  exists r same, g_set_correlation_real ENum r true true false false same = Ok tt /\ ~ r_limits r same.
-Proof. exact set_correlation_real_nan_refuted. Qed.
-
-(* ... and holds for every coefficient that is a number or an infinity *)
-Theorem C11_set_correlation_real_decision_on_numbers :
-  forall (r : ext) e1 e2 i1 i2 same, r <> ENaN ->
-    (g_set_correlation_real ENum r e1 e2 i1 i2 same = Ok tt <-> sc_flags_ok e1 e2 i1 i2 /\ r_limits r same).
-Proof. exact set_correlation_real_accept_iff_numbers. Qed.
+Theorem C11_set_correlation_rejects_nan_and_infinities :
+  forall (r : ext) same, (forall q, r <> Fin q) ->
+    g_set_correlation_real ENum r true true false false same = Err ValueError.
+Proof. exact set_correlation_real_rejects_non_numbers. Qed.
 
 (* core.set_correlation(r, x1, x2) for two elementary uncertain reals of ANY session state:
    accepted <-> r = 0 (no-op), or both declared independent=False and (both infinite dof, or
-   declared together) and the coefficient is in [-1,1] (only 1 for a number with itself) -- or NaN *)
+   declared together) and the coefficient is in [-1,1] (only 1 for a number with itself) *)
 Theorem C11_set_correlation_pair_decision :
   forall (s : KTypes.state ext) (o1 o2 : KTypes.ureal ext) k1 k2 l1 l2,
     unode o1 = LeafRef k1 -> unode o2 = LeafRef k2 ->
@@ -105,7 +100,7 @@ Theorem C11_set_correlation_pair_decision :
     forall sl a b (r : ext),
       slot_of ENum sl a = Some (DSReal o1) -> slot_of ENum sl b = Some (DSReal o2) ->
       (snd (core_set_correlation ENum sl (RScalar r) a b s) = Ok tt <->
-         r = Fin 0 \/ (legal_pair s l1 l2 k2 /\ (r_limits r (keqb k1 k2) \/ (r = ENaN /\ keqb k1 k2 = false)))).
+         r = Fin 0 \/ (legal_pair s l1 l2 k2 /\ r_limits r (keqb k1 k2))).
 Proof. exact set_correlation_real_pair_accept_iff. Qed.
 
 Theorem C11_rejected_set_correlation_pair_no_effect :
@@ -118,39 +113,45 @@ Theorem C11_rejected_set_correlation_pair_no_effect :
       fst (core_set_correlation ENum sl (RScalar r) a b s) = s /\ (e = ValueError \/ e = RuntimeError).
 Proof. exact set_correlation_real_pair_rejected_no_effect. Qed.
 
-(* the complex/complex form assigns four coefficients one after the other: a rejection can come
-   after some were assigned (binary64 witness; replayed on the implementation as known finding C11-2) *)
-Theorem C11_no_partial_effects_complex_refuted :
-  corr_of (fst (frun two_cplx)) key11 key13 = None /\
-  nth_error (snd (frun partial_prog)) 2 = Some (DOExn ValueError) /\
-  corr_of (fst (frun partial_prog)) key11 key13 = Some 0x1p-1%float.
-Proof. exact rejected_complex_set_correlation_has_effect. Qed.
+(* EVERY form of core.set_correlation (real/real, one complex, complex/complex; scalar or sequence
+   coefficient; elementary, constant, intermediate, None or plain-number operands), ANY session
+   state: a rejected call has changed nothing at all, and the exception is never AttributeError.
+   (Findings C11-2 -- partial effects of the complex/complex form -- and C11-3 -- AttributeError --
+   fixed: this replaces C11_no_partial_effects_complex_refuted and
+   C11_reject_class_AttributeError_refuted.) *)
+Theorem C11_rejected_set_correlation_no_effect :
+  forall sl (r : rarg ext) a b (s : KTypes.state ext) e,
+    snd (core_set_correlation ENum sl r a b s) = Err e ->
+    fst (core_set_correlation ENum sl r a b s) = s /\ e <> AttributeError.
+Proof. exact set_correlation_rejected_no_effect. Qed.
 
-Theorem C11_nan_correlation_stored_refuted :
-  nth_error (snd (frun nan_prog)) 2 = Some DOUnit /\
-  exists v, corr_of (fst (frun nan_prog)) key11 key12 = Some v /\ PrimFloat.eqb v v = false.
-Proof. exact nan_correlation_accepted. Qed.
-
-Theorem C11_reject_class_AttributeError_refuted :
-  nth_error (snd (frun attr_prog)) 2 = Some (DOExn AttributeError).
-Proof. exact rejection_by_AttributeError. Qed.
+(* the former witnesses, in binary64, as regression examples of the repaired behaviour *)
+Theorem C11_former_witnesses_repaired :
+  (nth_error (snd (frun nan_prog)) 2 = Some (DOExn ValueError) /\
+   corr_of (fst (frun nan_prog)) key11 key12 = None) /\
+  (nth_error (snd (frun partial_prog)) 2 = Some (DOExn ValueError) /\
+   corr_of (fst (frun partial_prog)) key11 key13 = None /\
+   nth_error (snd (frun partial_self_prog)) 2 = Some (DOExn ValueError) /\
+   corr_of (fst (frun partial_self_prog)) key11 key12 = None /\
+   d_k (fst (frun partial_self_prog)) = d_k (fst (frun two_cplx))) /\
+  (nth_error (snd (frun attr_prog)) 2 = Some (DOExn RuntimeError) /\
+   nth_error (snd (frun plain_prog)) 3 = Some (DOExn TypeError) /\
+   nth_error (snd (frun plain_prog)) 4 = Some (DOExn TypeError) /\
+   nth_error (snd (frun plain_prog)) 5 = Some (DOExn TypeError)).
+Proof.
+  exact (conj nan_correlation_rejected (conj rejected_complex_set_correlation_has_no_effect rejection_classes_repaired)).
+Qed.
 
 (* ===== (5) no bad number, for every program of declaration operations ===== *)
 (* every Leaf that any sequence of ureal / ucomplex / multiple_ureal / multiple_ucomplex /
-   set_correlation calls (accepted or rejected, in any order) ever creates has 0 <= u finite,
-   df >= 1 or inf, and only correlation coefficients with |r| <= 1 + 1e-10 -- provided no NaN
-   coefficient is passed to set_correlation ... *)
+   set_correlation calls (accepted or rejected, in any order, with any arguments -- NaN
+   coefficients included) ever creates has 0 <= u finite, df >= 1 or inf, and only correlation
+   coefficients that are numbers with |r| <= 1 + 1e-10.  (Before the repair of C11-1 this held
+   only under the proviso "no NaN coefficient is passed to set_correlation".) *)
 Theorem C11_no_bad_number :
   forall ctx (p : list (dop ext)) k l,
-    Forall op_nonan p ->
-    Kernel.assoc (s_leaves (d_k (fst (drun ENum (dinit ENum ctx) p)))) k = Some l -> good_leaf false l.
+    Kernel.assoc (s_leaves (d_k (fst (drun ENum (dinit ENum ctx) p)))) k = Some l -> good_leaf l.
 Proof. exact no_bad_number. Qed.
-
-(* ... and without that proviso the only bad thing that can be stored is a NaN coefficient *)
-Theorem C11_no_bad_number_up_to_nan_correlation :
-  forall ctx (p : list (dop ext)) k l,
-    Kernel.assoc (s_leaves (d_k (fst (drun ENum (dinit ENum ctx) p)))) k = Some l -> good_leaf true l.
-Proof. exact no_bad_number_weak. Qed.
 
 (* the re-checks of UncertainReal._elementary never fire behind core.ureal / core.ucomplex ... *)
 Theorem C11_elementary_rechecks_pass_after_core :
@@ -162,8 +163,9 @@ Theorem C11_elementary_guard_nan_refuted :
   g_elementary_guard F0 nan 2%float = Ok tt /\ g_elementary_guard F0 1%float nan = Ok tt.
 Proof. exact elementary_accepts_nan. Qed.
 
-(* type_a.estimate with sample correlation exactly 0 calls _elementary(z,u_r,u_i,0.0,df,label,True) *)
-Theorem C11_estimate_zero_correlation_refuted :
+(* UncertainComplex._elementary needs r = None for an independent pair (type_a.estimate passed 0.0
+   when the sample correlation was exactly zero: finding C11-4 / C12, repaired in the caller) *)
+Theorem C11_complex_elementary_r_requires_dependent :
   snd (ucomplex_elementary F0 1%float 2%float 1%float 1%float (Some 0%float) 3%float true (init F0 1)) = Err AttributeError.
 Proof. exact complex_elementary_r0_independent_fails. Qed.
 
@@ -247,18 +249,15 @@ Definition C11_all_theorems :=
    C11_rejected_multiple_ureal_only_appends,
    C11_extends_keeps_every_leaf,
    C11_set_correlation_real_decision,
-   C11_set_correlation_nan_refuted,
-   C11_set_correlation_real_decision_on_numbers,
+   C11_set_correlation_rejects_nan_and_infinities,
    C11_set_correlation_pair_decision,
    C11_rejected_set_correlation_pair_no_effect,
-   C11_no_partial_effects_complex_refuted,
-   C11_nan_correlation_stored_refuted,
-   C11_reject_class_AttributeError_refuted,
+   C11_rejected_set_correlation_no_effect,
+   C11_former_witnesses_repaired,
    C11_no_bad_number,
-   C11_no_bad_number_up_to_nan_correlation,
    C11_elementary_rechecks_pass_after_core,
    C11_elementary_guard_nan_refuted,
-   C11_estimate_zero_correlation_refuted,
+   C11_complex_elementary_r_requires_dependent,
    C11_boundaries_in_limits,
    C11_pair_nonvacuous,
    C11_binary64_boundaries).
